@@ -84,7 +84,11 @@ func (i ImportNames) TypeName(t types.Type) string {
 		}
 		return typ.Obj().Name()
 	default:
-		return t.String()
+		// Composite types (slices, arrays, maps, ...): qualify every named type
+		// in them with the name its package has in the setup file.
+		return types.TypeString(t, func(pkg *types.Package) string {
+			return i[pkg.Path()]
+		})
 	}
 }
 
